@@ -84,6 +84,7 @@ def case_ip_write(p):
         elif pre == "subscribed-first":
             rig.run(rig.pairing.subscribe(ids[:1]))
         notes = []
+        kept_w = {}
         rig.pairing.dispatcher_connect(lambda ev: notes.append(dict(ev)))
         for statuses, shape, malformed, dup in p["replies"]:
             if shape == "204" and any(statuses):
@@ -107,8 +108,15 @@ def case_ip_write(p):
             vals = {k: (i + 1) for i, k in enumerate(ids)}
             det = {"transport": "ip", "ids": ids, "statuses": statuses, "shape": shape, "malformed": malformed, "dup": dup, "history": p.get("pre"), "wire": p.get("wire")}
             try:
-                res = rig.run(rig.pairing.put_characteristics([(a, i, vals[(a, i)]) for a, i in ids]))
+                wcont = p.get("container") or "list"
+                triples = [(a, i, vals[(a, i)]) for a, i in ids]
+                # what a caller hands in is the caller's: a kept list handed in for every write, a tuple, a single-pass generator
+                warg = kept_w.setdefault("c", list(triples)) if wcont == "kept-list" else {"tuple": tuple, "generator": lambda t: (x for x in t), "list-of-lists": lambda t: [list(x) for x in t]}.get(wcont, list)(triples)
+                res = rig.run(rig.pairing.put_characteristics(warg))
                 raised = None
+                if isinstance(warg, (list, tuple)) and [tuple(x) for x in warg] != triples:
+                    out.append(("ip:write-modifies-the-caller-s-list-of-values", dict(det, now=[list(x) for x in warg])))
+                    break
             except Exception as e:  # noqa: BLE001
                 res, raised = None, e
             if not rig.pairing.is_connected:
@@ -292,6 +300,8 @@ def plan(tier):
                     work.append(("ip_write", {"ids": ids, "replies": reps[i : i + 120], "pre": pre}))
                 for wire in ("chunked", "lower", "chunked-2") if quick else ("chunked", "lower", "chunked-2", "upper", "mixed", "lws", "extra-headers", "chunked-lower"):
                     work.append(("ip_write", {"ids": ids, "replies": reps[i : i + 120], "wire": wire}))
+                for cont in ("kept-list", "tuple", "generator", "list-of-lists"):
+                    work.append(("ip_write", {"ids": ids, "replies": reps[i : i + 120], "container": cont}))
                 work.append(("ip_write", {"ids": ids, "replies": reps[i : i + 120], "wire": "chunked-lower", "env": dict(delivery="bytes", frames=[7])}))
                 work.append(("ip_write", {"ids": ids, "replies": reps[i : i + 120], "env": dict(delivery="3/4", frames=[48])}))
     for ids in READ_SETS:
